@@ -130,3 +130,10 @@ package keeper
 
 //@ func (Keeper).CheckExocoreGatewayAddr
 //@   ensures[C10.cega.spec] (err == nil) <==> gatewayOK(ctx, addr)
+
+//@ func (Keeper).UpdateParams
+//@   requires params != nil
+//@   requires isMainnet(unwrap_ctx(ctx)) && k.authority != params.Authority
+//@   flag prune
+//@   ensures[C10.up.assets] isMainnet(unwrap_ctx(ctx)) && k.authority != old(params.Authority) ==>
+//@        err != nil && state(unwrap_ctx(ctx)) == old(state(unwrap_ctx(ctx)))
